@@ -8,6 +8,7 @@ From RaftLog Require Import Base.Bytes Model.Types Model.Codec Model.Cache Model
   Model.Recover Model.Run Model.Sys Spec.Durable.
 From RaftLog Require Import Proofs.CodecFacts Proofs.NoPanic Proofs.JournalDisk Proofs.JournalChunk
   Proofs.JournalFacts.
+From RaftLog Require Proofs.SmFacts.
 From RaftLog Require Import Proofs.CrashBase.
 Import ListNotations.
 Local Open Scope N_scope.
@@ -275,38 +276,61 @@ Proof. intros H. unfold dle. apply Forall_impl. intros; lia. Qed.
 
 Ltac split4 := split; [try assumption|split; [try assumption|split; [try assumption|try assumption]]].
 
+(* ------------------------------------------------------------------ the journal as a function of the calls *)
+(* a record is journalled iff it passes the index guard and the validation *)
+Definition accepted (k : core) (r : record) : bool :=
+  negb (index_limit r) &&
+  match rs_validate (m_rs (k_sm k)) r with None => true | Some _ => false end.
+
+Definition glast_app (G : list jfile) (r : record) : list jfile :=
+  match rev G with
+  | [] => []
+  | (o, rs) :: Gr => rev Gr ++ [(o, rs ++ [r])]
+  end.
+
+Lemma glast_app_snoc G0 o rs r : glast_app (G0 ++ [(o, rs)]) r = G0 ++ [(o, rs ++ [r])].
+Proof. unfold glast_app. rewrite rev_unit, rev_involutive. reflexivity. Qed.
+
+(* the journal after record r has gone through append_and_apply in core k *)
+Definition gnext (k : core) (r : record) (G : list jfile) : list jfile :=
+  if accepted k r then
+    let sm1 := fst (sm_apply (k_sm k) r (ck_id (k_open k)) (ck_end (k_open k), rec_size r)) in
+    let k1 := appended k r sm1 in
+    let G1 := glast_app G r in
+    if is_full (k_cfg k1) (k_open k1) then G1 ++ [(ck_end (k_open k1), [RState (m_rs sm1)])] else G1
+  else G.
+
+Lemma aaa_res k r k' w effs : append_and_apply k r = Ret (k', w, effs) ->
+  (accepted k r = false /\ k' = k /\ effs = [] /\ exists e, w = WErr e) \/
+  (accepted k r = true /\ exists sm1,
+     rs_validate (m_rs (k_sm k)) r = None /\ index_limit r = false /\
+     sm_apply (k_sm k) r (ck_id (k_open k)) (ck_end (k_open k), rec_size r) = (sm1, None) /\
+     w = WOk (ck_end (k_open k)) (rec_size r) /\
+     try_close (appended k r sm1) = Ret (k', effs)).
+Proof.
+  intros H. unfold accepted.
+  destruct (index_limit r) eqn:Eil.
+  { left. unfold append_and_apply in H. rewrite Eil in H. inversion H; subst. simpl. eauto 6. }
+  destruct (rs_validate (m_rs (k_sm k)) r) as [e|] eqn:Hv.
+  { left. unfold append_and_apply in H. rewrite Eil, Hv in H. inversion H; subst. simpl. eauto 6. }
+  right. split; [reflexivity|].
+  pose proof (SmFacts.aaa_ok k r Eil Hv) as (k2 & off & len & ef & c & seg & Ha & _).
+  rewrite H in Ha. inversion Ha; subst k2 w ef. clear Ha.
+  apply append_and_apply_cases in H. destruct H as [(_ & _ & e & He)|(sm1 & _ & Hsm & Ew & Htc)].
+  - discriminate.
+  - exists sm1. auto.
+Qed.
+
+Lemma gnext_refused k r G : accepted k r = false -> gnext k r G = G.
+Proof. intros H. unfold gnext. now rewrite H. Qed.
+
 (* ------------------------------------------------------------------ one record through append_and_apply *)
 Definition estep (k k' : core) (d : disk) (G G' : list jfile) (X : list xeff) : Prop :=
   forall c0 S, EI k d c0 S G -> EI k' d c0 (S ++ X) G'.
 
-Lemma aa_step k cr t G d r k' w effs :
-  GI k cr t G -> HW d t G -> dle k d -> wf_record r ->
-  append_and_apply k r = Ret (k', w, effs) ->
-  exists G', GI k' cr (t ++ flat_map expand_eff effs) G' /\
-             HW d (t ++ flat_map expand_eff effs) G' /\ dle k' d /\
-             estep k k' d G G' (flat_map expand_eff effs).
-Proof.
-  intros Gk Hw Hd Hr H.
-  apply append_and_apply_cases in H. destruct H as [(-> & -> & _)|(sm1 & Hv & Hsm & _ & Htc)].
-  - exists G. simpl. rewrite app_nil_r. split4.
-    intros c0 S HE. now rewrite app_nil_r.
-  - destruct (gi_last _ _ _ _ Gk) as (G0 & rs & EG). subst G.
-    set (o := ck_id (k_open k)) in *.
-    pose proof (gi_sorted _ _ _ _ Gk) as Hs.
-    pose proof (GI_record k cr t G0 rs r sm1 Gk Hr Hv Hsm) as G1.
-    pose proof (HW_record d t G0 o rs r Hs Hw) as W1.
-    assert (D1 : dle (appended k r sm1) d) by exact Hd.
-    eapply try_close_cases in Htc; [|reflexivity].
-    destruct Htc as [(_ & -> & ->)|(_ & -> & ->)].
-    + exists (G0 ++ [(o, rs ++ [r])]). simpl. rewrite app_nil_r. split4.
-      intros c0 S HE. rewrite app_nil_r. now apply EI_record.
-    + fold (rot_x (appended k r sm1)).
-      destruct (GI_rotate _ cr t _ G1) as (G2 & Hlt & _).
-      eexists. split; [exact G2|]. split; [eapply HW_rotate; eauto|]. split.
-      * eapply dle_mono; [|exact D1]. change (ck_id (k_open (rotated (appended k r sm1))))
-          with (ck_end (k_open (appended k r sm1))). lia.
-      * intros c0 S HE. eapply EI_rotate; eauto. now apply EI_record.
-Qed.
+Definition wres_step (k k' : core) (cr : list N) (t : list xeff) (d : disk) (G : list jfile)
+  (X : list xeff) (G' : list jfile) : Prop :=
+  GI k' cr (t ++ X) G' /\ HW d (t ++ X) G' /\ dle k' d /\ estep k k' d G G' X.
 
 Lemma estep_trans k k1 k2 d G G1 G2 X1 X2 :
   estep k k1 d G G1 X1 -> estep k1 k2 d G1 G2 X2 -> estep k k2 d G G2 (X1 ++ X2).
@@ -315,33 +339,98 @@ Proof. intros H1 H2 c0 S HE. rewrite app_assoc. apply H2, H1, HE. Qed.
 Lemma estep_refl k d G : estep k k d G G [].
 Proof. intros c0 S HE. now rewrite app_nil_r. Qed.
 
-(* ------------------------------------------------------------------ a write call *)
-Definition wres_step (k k' : core) (cr : list N) (t : list xeff) (d : disk) (G : list jfile)
-  (X : list xeff) : Prop :=
-  exists G', GI k' cr (t ++ X) G' /\ HW d (t ++ X) G' /\ dle k' d /\ estep k k' d G G' X.
-
-Lemma wres_noop k cr t d G : GI k cr t G -> HW d t G -> dle k d -> wres_step k k cr t d G [].
+Lemma wres_noop k cr t d G : GI k cr t G -> HW d t G -> dle k d -> wres_step k k cr t d G [] G.
 Proof.
-  intros. exists G. rewrite app_nil_r. split4. apply estep_refl.
+  intros. unfold wres_step. rewrite app_nil_r. split4. apply estep_refl.
+Qed.
+
+Lemma aa_step k cr t G d r k' w effs :
+  GI k cr t G -> HW d t G -> dle k d -> wf_record r ->
+  append_and_apply k r = Ret (k', w, effs) ->
+  wres_step k k' cr t d G (flat_map expand_eff effs) (gnext k r G).
+Proof.
+  intros Gk Hw Hd Hr H.
+  apply aaa_res in H. destruct H as [(Ea & -> & -> & _)|(Ea & sm1 & Hv & Eil & Hsm & _ & Htc)].
+  - rewrite (gnext_refused _ _ _ Ea). now apply wres_noop.
+  - destruct (gi_last _ _ _ _ Gk) as (G0 & rs & EG). subst G.
+    set (o := ck_id (k_open k)) in *.
+    pose proof (gi_sorted _ _ _ _ Gk) as Hs.
+    pose proof (GI_record k cr t G0 rs r sm1 Gk Hr Hv Hsm) as G1.
+    pose proof (HW_record d t G0 o rs r Hs Hw) as W1.
+    assert (D1 : dle (appended k r sm1) d) by exact Hd.
+    unfold gnext. rewrite Ea. fold o. rewrite Hsm. cbn [fst]. rewrite glast_app_snoc.
+    eapply try_close_cases in Htc; [|reflexivity].
+    destruct Htc as [(Ef & -> & ->)|(Ef & -> & ->)]; rewrite Ef.
+    + unfold wres_step. simpl. rewrite app_nil_r. split4.
+      intros c0 S HE. rewrite app_nil_r. now apply EI_record.
+    + fold (rot_x (appended k r sm1)).
+      destruct (GI_rotate _ cr t _ G1) as (G2 & Hlt & _).
+      split; [exact G2|]. split; [eapply HW_rotate; eauto|]. split.
+      * eapply dle_mono; [|exact D1]. change (ck_id (k_open (rotated (appended k r sm1))))
+          with (ck_end (k_open (appended k r sm1))). lia.
+      * intros c0 S HE. eapply EI_rotate; eauto. now apply EI_record.
+Qed.
+
+(* ------------------------------------------------------------------ a write call *)
+(* the records that a write call tries to journal, in order (it stops at the first one
+   that is refused) *)
+Definition wrecs (k : core) (w : wop) : list record :=
+  match w with
+  | OVote v => [RVote v]
+  | OAppend es => map (fun e => RAppend (fst e) (snd e)) es
+  | OTruncate i =>
+    let purged := r_purged (m_rs (k_sm k)) in
+    if N.eqb i (next_index purged) then [RTrunc purged]
+    else if N.eqb i 0 then []
+    else match lm_get_id k (i - 1) with None => [] | Some id => [RTrunc (Some id)] end
+  | OPurge upto =>
+    if N.ltb (lid_index upto) (next_index (r_purged (m_rs (k_sm k)))) then [] else [RPurge upto]
+  | OCommit id => [RCommit id]
+  | OUser u => [RState (rs_set_user (m_rs (k_sm k)) u)]
+  | OUpdateState st => [RState st]
+  end.
+
+Fixpoint gfold (k : core) (rs : list record) (G : list jfile) : list jfile :=
+  match rs with
+  | [] => G
+  | r :: rest =>
+    match append_and_apply k r with
+    | Ret (k1, WOk _ _, _) => gfold k1 rest (gnext k r G)
+    | _ => G
+    end
+  end.
+
+Lemma gfold_one k r G : gfold k [r] G = gnext k r G.
+Proof.
+  simpl. destruct (append_and_apply k r) as [[[k1 w1] ef]|] eqn:E.
+  - apply aaa_res in E. destruct E as [(Ea & _ & _ & e & ->)|(_ & sm1 & _ & _ & _ & -> & _)].
+    + now rewrite gnext_refused.
+    + reflexivity.
+  - exfalso. eapply append_and_apply_no_panic; eauto.
 Qed.
 
 Lemma do_append_step es : forall k cr t G d acc effs0 k' w effs,
   Forall (fun e => wf_pair (fst e) /\ wf_bytes (snd e)) es ->
   GI k cr t G -> HW d t G -> dle k d ->
   do_append k es acc effs0 = Ret (k', w, effs) ->
-  exists effs1, effs = effs0 ++ effs1 /\ wres_step k k' cr t d G (flat_map expand_eff effs1).
+  exists effs1, effs = effs0 ++ effs1 /\
+    wres_step k k' cr t d G (flat_map expand_eff effs1)
+              (gfold k (map (fun e => RAppend (fst e) (snd e)) es) G).
 Proof.
   induction es as [|[id p] es IH]; intros k cr t G d acc effs0 k' w effs Hwf Gk Hw Hd H; simpl in H.
   - inversion H; subst. exists []. rewrite app_nil_r. split; [reflexivity|]. now apply wres_noop.
   - inversion Hwf as [|? ? Hw1 Hw2]; subst.
     destruct (append_and_apply k (RAppend id p)) as [[[k1 w1] ef]|] eqn:Ea; [|discriminate].
-    destruct (aa_step k cr t G d (RAppend id p) k1 w1 ef Gk Hw Hd Hw1 Ea) as (G1 & Gk1 & W1 & D1 & E1).
+    destruct (aa_step k cr t G d (RAppend id p) k1 w1 ef Gk Hw Hd Hw1 Ea) as (Gk1 & W1 & D1 & E1).
+    cbn [map fst snd gfold]. rewrite Ea.
     destruct w1 as [off len|e].
-    + destruct (IH _ _ _ _ _ _ _ _ _ _ Hw2 Gk1 W1 D1 H) as (effs2 & E2 & (G2 & Gk2 & W2 & D2 & E2')).
+    + destruct (IH _ _ _ _ _ _ _ _ _ _ Hw2 Gk1 W1 D1 H) as (effs2 & E2 & (Gk2 & W2 & D2 & E2')).
       exists (ef ++ effs2). split; [rewrite E2, app_assoc; reflexivity|].
-      exists G2. rewrite flat_map_app, app_assoc. split4.
+      unfold wres_step. rewrite flat_map_app, app_assoc. split4.
       eapply estep_trans; eauto.
-    + inversion H; subst. exists ef. split; [reflexivity|]. exists G1. split4.
+    + inversion H; subst. exists ef. split; [reflexivity|].
+      apply aaa_res in Ea. destruct Ea as [(Eacc & _)|(_ & sm1 & _ & _ & _ & Ew & _)]; [|discriminate].
+      rewrite (gnext_refused _ _ _ Eacc) in *. unfold wres_step. split4.
 Qed.
 
 Lemma GI_purged k cr t G upto rm rest :
@@ -359,15 +448,15 @@ Proof. intros Ho Hp [H1 H2 H3 H4]. constructor; rewrite ?Ho, ?Hp; assumption. Qe
 Lemma write_step k cr d G w k' res effs :
   GI k cr [] G -> HW d [] G -> dle k d -> wop_wf w ->
   do_write k w = Ret (k', res, effs) ->
-  wres_step k k' cr [] d G (flat_map expand_eff effs).
+  wres_step k k' cr [] d G (flat_map expand_eff effs) (gfold k (wrecs k w) G).
 Proof.
   intros Gk Hw Hd Hwf H.
   pose proof (gi_jinv _ _ _ _ Gk) as J.
   pose proof (ji_rs _ _ _ J) as (Wv & Wl & Wc & Wp & Wu).
   assert (AA : forall r k1 w1 ef, wf_record r -> append_and_apply k r = Ret (k1, w1, ef) ->
-               wres_step k k1 cr [] d G (flat_map expand_eff ef)).
-  { intros r k1 w1 ef Hr Ha. exact (aa_step k cr [] G d r k1 w1 ef Gk Hw Hd Hr Ha). }
-  destruct w as [v|es|i|upto|id|u|st]; simpl in H, Hwf.
+               wres_step k k1 cr [] d G (flat_map expand_eff ef) (gfold k [r] G)).
+  { intros r k1 w1 ef Hr Ha. rewrite gfold_one. exact (aa_step k cr [] G d r k1 w1 ef Gk Hw Hd Hr Ha). }
+  destruct w as [v|es|i|upto|id|u|st]; simpl in H, Hwf; cbn [wrecs].
   - eapply AA; [|exact H]. exact Hwf.
   - destruct (wal_last_segment k) as [w0|]; [|discriminate].
     destruct (do_append_step es k cr [] G d _ _ _ _ _ Hwf Gk Hw Hd H) as (effs1 & E & Hstep).
@@ -376,7 +465,7 @@ Proof.
     { eapply AA; [|exact H]. exact Wp. }
     destruct (N.eqb i 0).
     { inversion H; subst. now apply wres_noop. }
-    unfold lm_get_id in H.
+    unfold lm_get_id in *.
     destruct (lm_get (i - 1) (m_log (k_sm k))) as [ld|] eqn:El.
     + apply lm_get_In in El. pose proof (ji_log _ _ _ J) as HL. rewrite Forall_forall in HL.
       destruct (HL _ El) as (Wd & _). simpl in Wd. eapply AA; [|exact H]. exact Wd.
@@ -385,13 +474,13 @@ Proof.
     { destruct (wal_last_segment k) as [w0|]; [|discriminate].
       inversion H; subst. now apply wres_noop. }
     destruct (append_and_apply k (RPurge upto)) as [[[k1 w1] ef]|] eqn:Ea; [|discriminate].
-    destruct (AA (RPurge upto) _ _ _ Hwf Ea) as (G1 & Gk1 & W1 & D1 & E1).
+    destruct (AA (RPurge upto) _ _ _ Hwf Ea) as (Gk1 & W1 & D1 & E1).
     destruct w1 as [off len|e].
     + destruct (pop_obsolete upto (k_closed k1)) as [rm rest] eqn:Ep.
       inversion H; subst k' res effs. clear H.
-      exists G1. split; [exact (GI_purged _ _ _ _ _ _ _ Gk1 Ep)|]. split; [exact W1|].
+      split; [exact (GI_purged _ _ _ _ _ _ _ Gk1 Ep)|]. split; [exact W1|].
       split; [exact D1|]. intros c0 S HE. eapply EI_core; [| |apply E1, HE]; reflexivity.
-    + inversion H; subst. exists G1. split4.
+    + inversion H; subst. unfold wres_step. split4.
   - eapply AA; [|exact H]. exact Hwf.
   - eapply AA; [|exact H]. simpl. unfold wf_rstate. simpl. tauto.
   - eapply AA; [|exact H]. exact Hwf.
@@ -409,14 +498,14 @@ Proof. unfold flush_x, do_flush. simpl. destruct (k_removed k); reflexivity. Qed
 
 Lemma flush_step k cr d G cb :
   GI k cr [] G -> HW d [] G -> dle k d ->
-  wres_step k (fst (do_flush k cb)) cr [] d G (flush_x k cb).
+  wres_step k (fst (do_flush k cb)) cr [] d G (flush_x k cb) G.
 Proof.
   intros [J Hi Hs Hok Hab Hch Hl Hhd] Hw Hd.
   assert (Hcr : creates (flush_x k cb) = []) by (rewrite flush_x_eq; apply creates_sends).
   assert (Hhi : hd_ids (flush_x k cb) = []) by (rewrite flush_x_eq; apply hd_ids_sends).
   assert (Hth : forall id, theads (flush_x k cb) id = []).
   { intros id. apply theads_notin. now rewrite Hhi. }
-  exists G. split; [|split; [|split]].
+  split; [|split; [|split]].
   - simpl. constructor; try assumption.
     + apply (jinv_flush k (chunk_ids k) (gbytes G) (gbytes G) _ J). reflexivity.
     + now rewrite Hcr.
